@@ -176,6 +176,11 @@ func c06CompareInst(c *core.Ctx, w *World, in *Inst, f *rm.Forest, site, trig, d
 			c.Violate(site, "proof-differs", trig, fmt.Sprintf("%s: slots %v: got %s; reference %s", desc, req, proofStr(got), proofStr(want)))
 			return false
 		}
+		c.Eval(1)
+		if err := in.U.Verify(cloneHashes(hashes), cloneProof(got), false); err != nil {
+			c.Violate(site, "own-proof-rejected", trig, fmt.Sprintf("%s: slots %v: the instance rejects the proof it just produced: %v", desc, req, err))
+			return false
+		}
 	}
 	if sc, ok := in.U.(structChecker); ok && in.P != nil {
 		c.Eval(1)
